@@ -9,4 +9,21 @@ META["C01"] = {"text": _T % "", "note": "Inductive steps from the hand-written B
 META["C02"] = {"text": _T % "", "note": "Windows of <= 3 uncommitted reads, buffers <= 4 values; sharing one consumer between goroutines under the symbolic scheduler is outside."}
 META["C08"] = {"text": _T % " and, for the race harness, over every schedule of Send || 2 receivers within T=24 scheduler steps", "note": "Interleaving claim is a small-scope claim (3 goroutines); sync/atomic/channel models trusted; 3+ receivers and two racing senders are outside."}
 META["C13"] = {"text": _T % "", "note": "reflect stubs (TryRecv, Interface) trusted; pending buffer <= 4, source <= 3 values, histories of 6 operations."}
-NOT_APPLICABLE = {}
+_I = " Interleaving obligations use a step-unrolled symbolic scheduler: the schedule is a vector of solver variables and z3 decides assertion, panic, stuck-state and bound-adequacy queries over every schedule within T steps (partial-order constraint applied)."
+META["C05"] = {"text": _T % " and every schedule of the WaitCond harnesses" + _I, "note": "Small scope: waiter + watcher + one signaller + one canceller; sync.Cond/Mutex/context models trusted; time is abstracted (no 'promptly')."}
+META["C06"] = {"text": _T % " and every schedule of one sender and one standing subscriber" + _I, "note": "One sender, one subscriber, one message (T=30); global ordering across senders and several subscribers is outside the bound."}
+META["C07"] = {"text": _T % " and (thorough) every schedule of a sender racing an unsubscribe" + _I, "note": "Quick tier checks the invariant-check arithmetic for all inputs; the interleaving harness assumes at most 2 failed TryRLock spins; SubscribeContext paths are outside."}
+META["C09"] = {"text": _T % " and every schedule of the other-key harness" + _I, "note": "Only key independence is claimed; same-key non-overlap with two racing callers exceeded the encoder's reach (see DESIGN.md)."}
+META["C10"] = {"text": _T % " and every schedule of a single call and its runner" + _I, "note": "Single caller; coalescing of several callers exceeded the encoder's reach (see DESIGN.md)."}
+META["C12"] = {"text": _T % " and every schedule of the termination harnesses" + _I, "note": "Per-component termination; composition is argued, not checked; the Buffer cleanup goroutine together with consumers is covered only by C04's harness."}
+META["C14"] = {"text": _T % " and every schedule of one caller and its worker" + _I, "note": "Worker body from arbitrary states (queue <= 2); concurrency bound with several callers is only covered by the exit/dispatch step, not by an interleaving harness."}
+META["C16"] = {"text": _T % " and every schedule of the context-combinator harnesses" + _I, "note": "Hand-written context model (atomic subtree cancellation, AfterFunc as guarded pseudo-goroutine) is the main trusted part."}
+META["C17"] = {"text": _T % " and every schedule of two holders with the real wait()/do() goroutines" + _I, "note": "Two holders (T=26); WaitGroup/Mutex/channel models trusted."}
+META["C18"] = {"text": _T % "", "note": "math/rand.Int63n is a nondeterministic stub (any r in [0,n)); <= 4 calls per run; multiplication r*rate is compared syntactically, never solved; native replay is not available for harnesses using the rand observation intrinsics."}
+META["C20"] = {"text": _T % " and every schedule of producer, receiver and canceller" + _I, "note": "count 2 (quick) / 3 (thorough); fairness assumption: at most 2 failed non-blocking sends; timer/ticker may fire at any moment."}
+NOT_APPLICABLE = {
+    "C04": "check under construction: the cleaner-protocol interleaving harness has not yet run clean within the budget",
+    "C11": "check under construction: guard-table (lock-discipline) obligations not yet registered",
+    "C15": "check under construction: reflect.Select stub not yet built",
+    "C19": "behaviour lives in package reflect (MakeFunc/Call/Set/Append), which cannot be encoded within reach; contract stubs not built",
+}
